@@ -14,4 +14,21 @@ PROPS = {
         "assumptions": COMMON_KANI,
         "outside": ["rendered message text", "minimum+1 overflow for n_times(usize::MAX).then()"],
     },
+    "C01": {
+        "bounds": {"quick": "scan: K=3 patterns, all 27 verdict tables {reject,accept,error}^3, arbitrary 64-bit prior counts and ordered index; one step (state = counters, arbitrary => histories of any length); matcher downcast: all u8 x u8",
+                   "thorough": "adds K=4 and the eval_dyn step with a 1-entry method table"},
+        "assumptions": COMMON_KANI + ["predicates are modelled as an arbitrary verdict per pattern (the link matcher closure = predicate is C06)",
+                                      "instantiation: TestFn (Inputs = u8, OutputKind = Owning<u8>) and TestFn2 (u16)"],
+        "outside": ["K > 4 patterns", "the matching! macro (C06)"],
+    },
+    "C02": {
+        "bounds": {"quick": "segment lookup: S<=4 segments, repeat counts all values < 2^60 including 0, call index all 2^64; next_responder from an arbitrary counter value"},
+        "assumptions": COMMON_KANI,
+        "outside": ["sum of repeat counts >= 2^63", "more than 4 segments"],
+    },
+    "C04": {
+        "bounds": {"quick": "owner lookup and one ordered step: 3 patterns of the called method with arbitrary increasing disjoint 64-bit slot ranges (empty ranges allowed), arbitrary global index, arbitrary prior counts"},
+        "assumptions": COMMON_KANI + ["std::thread::current()/panicking() replaced by the overlay's std_shim (Kani cannot compile thread::current())"],
+        "outside": ["more than 3 ordered patterns per method in one step harness"],
+    },
 }
